@@ -1829,7 +1829,12 @@ pub fn run(prop: &str, _params: &Params) {
   }
 
   // ---- chaos ----
-  let steps = 6 + ctx::choose(13);
+  let steps = if ctx::chance(1, 50) {
+    ctx::stat("probe.long_history");
+    40 + ctx::choose(40)
+  } else {
+    6 + ctx::choose(13)
+  };
   for step in 0..steps {
     w.clock.advance(90);
     let weights: [u32; 6] = if prop == "C02" { [5, 0, 3, 8, 0, 1] } else { [2, 5, 2, 0, 8, 1] };
